@@ -298,7 +298,8 @@ def main(argv):
     # two threads of one process, two physical CPUs + virtual CPU
     closure += enumerate_closure([(2, [2])], [0, 1, -1], 3 if quick else 4, maxcases=None if quick else 400, rng=rng)
     # two threads in two processes sharing one physical CPU + virtual
-    closure += enumerate_closure([(1, [1, 1])], [0, -1], 3 if quick else 5, maxcases=None if quick else 400, rng=rng)
+    # depth 4 is needed for "A executes, pauses; B executes on the same CPU; A resumes"
+    closure += enumerate_closure([(1, [1, 1])], [0, -1], 4 if quick else 5, maxcases=None if quick else 600, rng=rng)
     nrandom = 200 if quick else 6000
     runs = acc = rej = lines = vover = 0
     words = set()
